@@ -231,6 +231,17 @@ fn real_main() {
                 if inv.inverse() != *m { errs.push("inverse(inverse)".into()); }
                 if m.compose(&inv) != SlotMap::identity(&m.keys()) { errs.push("compose with inverse".into()); }
             }
+            if !s.st.bij && !cfg!(feature = "checks") {
+                // SlotMap.tla IsSection: inverse() of a non-injective map is again a finite map, one entry per value
+                let inv = m.inverse();
+                let ps = pairs_of(&inv);
+                let mut ks: Vec<u32> = ps.iter().map(|p| p.0).collect(); ks.sort(); let n = ks.len(); ks.dedup();
+                let re: SlotMap = SlotMap::from_pairs(&inv.iter().collect::<Vec<_>>());
+                let ok = n == ks.len() && ks == { let mut v = s.st.values.clone(); v.sort(); v.dedup(); v }
+                    && ps.iter().all(|(y, x)| m.get(sl(*x)) == Some(sl(*y)))
+                    && re == inv && h(&re) == h(&inv) && inv.len() == ks.len() && inv.keys().len() == inv.len();
+                if !ok { errs.push("inverse of a non-injective map is not a finite map / section".into()); }
+            }
             let it: SlotMap = m.clone().into_iter().collect();
             if &it != m { errs.push("into_iter/from_iter".into()); }
             // construction from every listing order of the pairs (SlotMap.tla: LawFromSeq)
